@@ -536,3 +536,36 @@ Definition obj_ttl_tenths (expires now : Z) : Z := Z.max 1 ((expires - now) / 10
 Definition hook_ttl_tenths (expires now : Z) : Z := (expires - now + 50000000) / 100000000.
 
 Close Scope Z_scope.
+
+(* ---------------------------------------------------------------- file names *)
+
+(* The three files of the directory model live under names derived from the configured log name
+   (opts.AppendFileName, --appendfilename): <name>, <name>-bak, <name>-shrink.  A file system is a
+   map path -> content; to_fs places a directory state under a name, next to unrelated files. *)
+Definition fsys := smap file.
+Definition bak_name (n : bytes) : bytes := n ++ [45%N; 98%N; 97%N; 107%N].                               (* "-bak" *)
+Definition shrink_name (n : bytes) : bytes := n ++ [45%N; 115%N; 104%N; 114%N; 105%N; 110%N; 107%N].     (* "-shrink" *)
+
+Definition put_file (p : bytes) (f : option file) (fs : fsys) : fsys :=
+  match f with Some c => set p c fs | None => del p fs end.
+
+Definition to_fs (n : bytes) (d : dir) (rest : fsys) : fsys :=
+  put_file n (d_live d) (put_file (bak_name n) (d_bak d) (put_file (shrink_name n) (d_shrink d) rest)).
+
+(* Start-up: restoreShrinkBackup(look) — when <look> is missing and <look>-bak exists, rename it
+   back — then os.OpenFile(open, O_CREATE) + loadAOF.  The repaired Serve passes
+   opts.AppendFileName for both; a restore that only knows the default name has look <> open. *)
+Definition restore_backup (look : bytes) (fs : fsys) : fsys :=
+  match get look fs with
+  | Some _ => fs
+  | None => match get (bak_name look) fs with
+            | Some f => set look f (del (bak_name look) fs)
+            | None => fs
+            end
+  end.
+
+Definition recover_fs (look open : bytes) (fs : fsys) : st :=
+  match get open (restore_backup look fs) with
+  | Some f => replay f []
+  | None => []                                   (* created empty *)
+  end.
